@@ -372,6 +372,27 @@ def run(R):
                 R.fail('C03.LOP.1', inst, app + '._on_nack', dels[0].ast, 'PIT node deleted without completing its entries with the Nack', site(on, dels[0].ast))
             else:
                 R.ok('C03.LOP.1', inst, site(on, nacks[0][1]))
+        # the nacked node is found by an exact lookup of the Nack's name (not a prefix match)
+        R.ob('C03.PRV.1', 'a Nack completes only the Interests pending under exactly the nacked name')
+        pname = on.f.node.args.args[1].arg
+        for (nn_, nc_) in nacks:
+            inst = f'{app}._on_nack :: node lookup'
+            srcs = on.sources(nn_, nc_.func.value)
+            good = bool(srcs)
+            for s_ in srcs:
+                e_ = s_.expr if s_.kind == 'expr' else None
+                if isinstance(e_, ast.Constant) and e_.value is None:
+                    continue
+                exact = (isinstance(e_, ast.Subscript) and self_attr(e_.value, trie) and ast.unparse(e_.slice) == pname) or \
+                        (isinstance(e_, ast.Call) and callee_attr(e_) == 'get' and self_attr(e_.func.value, trie) and e_.args
+                         and ast.unparse(e_.args[0]) == pname)
+                if not exact:
+                    good = False
+            if good:
+                R.ok('C03.PRV.1', inst, site(on, nc_), f'self.{trie}[{pname}]')
+            else:
+                R.fail('C03.PRV.1', inst, app + '._on_nack', nc_, f'the node to nack is {srcs_text(srcs)}, not the exact entry of the nacked name '
+                       '(Interests pending under other names would be completed with this Nack)', site(on, nc_))
         # nack_interest visits all entries with the given reason
         nk = ctx(R, nodeq + '.nack_interest')
         lps = [s for s in ast.walk(nk.f.node) if isinstance(s, ast.For) and 'pending_list' in ast.unparse(s.iter)]
@@ -430,6 +451,64 @@ def run(R):
                        what, site(ex, construct))
         else:
             R.ok('C03.ORD.1', inst, site(ex, apps[0][1]))
+        # ------------------------------------------------------------ PRV.2 deadline fixed at express time
+        R.ob('C03.PRV.2', 'the time-out of the wait is computed from an absolute deadline fixed when the Interest is expressed')
+        wfs = [(n, c) for (n, c) in calls_in_ctx(w) if ast.unparse(c.func).endswith('wait_for')]
+        (wn_, wc_) = wfs[0]
+        tmo = next((k.value for k in wc_.keywords if k.arg == 'timeout'), wc_.args[1] if len(wc_.args) > 1 else None)
+        inst = f'{wq} :: wait_for timeout'
+        if tmo is None:
+            R.fail('C03.PRV.2', inst, wq, wc_, 'the wait has no time-out', site(w, wc_))
+        else:
+            wparams = [a.arg for a in w.f.node.args.args]
+            dl_params = set()
+            seen_txt = []
+            todo = [(wn_, x) for x in ast.walk(tmo) if isinstance(x, ast.Name)]
+            visited = set()
+            while todo:
+                (nd, nm) = todo.pop()
+                for s_ in w.sources(nd, nm):
+                    key = (s_.kind, s_.text())
+                    if key in visited:
+                        continue
+                    visited.add(key)
+                    seen_txt.append(s_.text())
+                    if s_.kind == 'expr':
+                        e_ = s_.expr
+                        for b in ast.walk(e_):
+                            if isinstance(b, ast.BinOp) and isinstance(b.op, ast.Sub) and isinstance(b.left, ast.Name) \
+                                    and b.left.id in wparams and any(isinstance(c, ast.Call) and callee_attr(c) in ('timestamp',) or
+                                                                     (isinstance(c, ast.Call) and ast.unparse(c.func) == 'timestamp')
+                                                                     for c in ast.walk(b.right)):
+                                dl_params.add(b.left.id)
+                        todo += [(s_.node, x) for x in ast.walk(e_) if isinstance(x, ast.Name) and x.id not in wparams]
+            okdl = False
+            if dl_params:
+                dp = dl_params.pop()
+                idx = wparams.index(dp) - 1
+                (xn, xc) = waitc[0]
+                if idx < len(xc.args):
+                    asrcs = ex.sources(xn, xc.args[idx])
+                    # the deadline must be rooted in a clock reading taken in express_raw_interest
+                    def rooted(srcs_, depth=0):
+                        for a_ in srcs_:
+                            if a_.kind == 'expr' and any(isinstance(c, ast.Call) and (callee_attr(c) == 'timestamp' or ast.unparse(c.func) == 'timestamp')
+                                                         for c in ast.walk(a_.expr)):
+                                return True
+                            if a_.kind == 'aug' and depth < 3:
+                                tgt = a_.expr.target
+                                prev = [(d_, v_) for (d_, v_) in a_.ctx.cfg.defs_reaching(a_.node, tgt.id)] if isinstance(tgt, ast.Name) else []
+                                for (d_, v_) in prev:
+                                    if isinstance(v_, ast.AST) and any(isinstance(c, ast.Call) and (callee_attr(c) == 'timestamp' or ast.unparse(c.func) == 'timestamp')
+                                                                       for c in ast.walk(v_)):
+                                        return True
+                        return False
+                    okdl = rooted(asrcs)
+            if okdl:
+                R.ok('C03.PRV.2', inst, site(w, wc_), 'timeout <- deadline - now, deadline <- clock reading at express time')
+            else:
+                R.fail('C03.PRV.2', inst, wq, wc_, 'the lifetime is counted from the first await of the returned coroutine, not from the moment '
+                       f'the Interest was expressed (timeout derives from {sorted(set(seen_txt))[:4]})', site(w, wc_))
         # ------------------------------------------------------------ REL.2
         tm = ctx(R, nodeq + '.timeout')
         futp = tm.f.node.args.args[1].arg
